@@ -591,17 +591,48 @@ func GenC17conv(rng *rand.Rand, thorough bool, emit func(*Sx)) {
 	errs := []BErr{rejectErr(), BSmtp(451, [3]int{4, 3, 0}, "try again later"), BSmtp(554, [3]int{0, 0, 0}, "no enhanced code given"),
 		BSmtp(550, [3]int{5, 1, 1}, "line one\nline two"), BPlain("plain failure")}
 	for ei, e := range errs {
-		for _, lmtp := range []bool{false, true} {
+		for _, greet := range []string{"EHLO", "LHLO", "HELO"} {
+			lmtp := greet == "LHLO"
 			for site := 0; site < 5; site++ {
+				if greet == "HELO" && site == 0 {
+					continue
+				}
 				cfg := DefaultCfg()
 				cfg.LMTP = lmtp
 				if site == 4 {
 					cfg.MaxBytes = 10
 				}
 				f := newF(cfg)
+				// the backend's SMTPError as it must appear on the wire (code, enhanced code - the class
+				// default when unset -, text line by line), whatever the greeting was
+				if e.Kind == "smtp" && site > 0 {
+					ec := e.EC
+					if ec == [3]int{0, 0, 0} {
+						ec = [3]int{e.Code / 100, 0, 0}
+					}
+					lines := strings.Split(e.Msg, "\n")
+					for i, l := range lines {
+						sep := "-"
+						if i == len(lines)-1 {
+							sep = " "
+						}
+						pre := ""
+						if lmtp && site >= 3 && i == 0 {
+							pre = "<r@ok> "
+						}
+						f.add(L(A("expect-line"), XS(fmt.Sprintf("%d%s%d.%d.%d %s%s", e.Code, sep, ec[0], ec[1], ec[2], pre, l))))
+					}
+				}
 				code := codeOf(e)
 				if e.Kind == "plain" {
 					code = 451
+				}
+				hello := func() {
+					if greet == "HELO" {
+						f.cmd("HELO c.example", 250)
+					} else {
+						f.hello()
+					}
 				}
 				switch site {
 				case 0:
@@ -609,18 +640,18 @@ func GenC17conv(rng *rand.Rand, thorough bool, emit func(*Sx)) {
 					f.cmd(map[bool]string{false: "EHLO c.example", true: "LHLO c.example"}[lmtp], code)
 					f.cmd("QUIT", 221)
 				case 1:
-					f.hello()
+					hello()
 					f.script.Mail = []BErr{e}
 					f.cmd("MAIL FROM:<s@ok>", code)
 					f.cmd("QUIT", 221)
 				case 2:
-					f.hello()
+					hello()
 					f.cmd("MAIL FROM:<s@ok>", 250)
 					f.script.Rcpt = []BErr{e}
 					f.cmd("RCPT TO:<r@ok>", code)
 					f.cmd("QUIT", 221)
 				default:
-					f.hello()
+					hello()
 					f.cmd("MAIL FROM:<s@ok>", 250)
 					f.cmd("RCPT TO:<r@ok>", 250)
 					f.cmd("DATA", 354)
@@ -632,6 +663,91 @@ func GenC17conv(rng *rand.Rand, thorough bool, emit func(*Sx)) {
 					f.cmd("QUIT", 221)
 				}
 				emit(RunConv(f.caseOf("C17", segStream(rng, f.out, nil, (ei+site)%3, rawEOF))))
+			}
+		}
+	}
+}
+
+// GenC01: what the backend reads depends on nothing but the octets sent after the 354 - not on the
+// parameters of MAIL/RCPT, not on earlier transactions of the connection, not on the greeting.
+func GenC01(rng *rand.Rand, thorough bool, emit func(*Sx)) {
+	bodies := []string{
+		"hello\r\n",
+		"..leading dot\r\n.x\r\n...\r\n",
+		"line one\r\n\r\nbare\nlf and bare\rcr\r\n",
+		strings.Repeat("0123456789abcdef\r\n", 30),
+		"",
+		"\x00\xff binary\r\n",
+	}
+	mails := func(n int) []string {
+		return []string{"", " SIZE=0", " SIZE=1", fmt.Sprintf(" SIZE=%d", n/2), fmt.Sprintf(" SIZE=%d", n-1), fmt.Sprintf(" SIZE=%d", n),
+			fmt.Sprintf(" SIZE=%d", n+1), " SIZE=1000000", " BODY=7BIT", " BODY=8BITMIME", " body=8bitmime size=3", " SMTPUTF8", " RET=HDRS ENVID=e1",
+			" AUTH=<>", " SIZE=2 BODY=7BIT SMTPUTF8 RET=FULL"}
+	}
+	rcpts := []string{"", " NOTIFY=NEVER", " ORCPT=rfc822;o@x NOTIFY=SUCCESS,FAILURE"}
+	n := 0
+	for bi, body := range bodies {
+		wire := body + ".\r\n"
+		want := string(unstuffed([]byte(body)))
+		for mi, mp := range mails(len(want)) {
+			for _, mode := range []string{"smtp", "lmtp", "lmtp-session", "helo"} {
+				for _, limit := range []int64{0, int64(len(want)), int64(len(want)) + 7} {
+					n++
+					if !thorough && (n+bi)%4 != 0 {
+						continue
+					}
+					if limit == 0 && len(want) == 0 && mi > 3 {
+						continue
+					}
+					cfg := DefaultCfg()
+					cfg.UTF8, cfg.DSN = true, true
+					cfg.LMTP = mode == "lmtp" || mode == "lmtp-session"
+					cfg.LMTPSession = mode == "lmtp-session"
+					cfg.MaxBytes = limit
+					if limit > 0 && strings.Contains(mp, "SIZE=1000000") {
+						continue // refused with 552: not this property
+					}
+					if limit > 0 && strings.Contains(mp, fmt.Sprintf("SIZE=%d", len(want)+1)) {
+						continue
+					}
+					f := newF(cfg)
+					if mode == "helo" {
+						if mp != "" {
+							continue // parameters need EHLO? (they do not, but keep HELO cases plain)
+						}
+						f.cmd("HELO c.example", 250)
+					} else {
+						f.hello()
+					}
+					// an earlier transaction with other parameters and another body on the same connection
+					if n%3 == 0 {
+						f.cmd("MAIL FROM:<first@ok> SIZE=4", 250)
+						f.cmd("RCPT TO:<r@ok>", 250)
+						f.cmd("DATA", 354)
+						earlier := "an earlier message, longer than declared\r\n"
+						f.raw(earlier + ".\r\n")
+						if limit > 0 && int64(len(earlier)) > limit {
+							f.expect(552)
+						} else {
+							f.expect(250)
+						}
+					}
+					f.cmd("MAIL FROM:<s@ok>"+mp, 250)
+					f.cmd("RCPT TO:<r@ok>"+rcpts[n%len(rcpts)], 250)
+					f.cmd("DATA", 354)
+					f.raw(wire)
+					f.expect(250)
+					p := DefaultPlan()
+					p.Sizes = [][]int{{4096}, {1}, {7}, {3, 1, 2}}[n%4]
+					if n%3 == 0 {
+						f.script.Data = []DataPlan{DefaultPlan(), p}
+					} else {
+						f.script.Data = []DataPlan{p}
+					}
+					f.add(L(A("expect-last-data"), XS(want), A("eof")))
+					f.cmd("QUIT", 221)
+					emit(RunConv(f.caseOf("C01", segStream(rng, f.out, f.cuts, n%5, rawEOF))))
+				}
 			}
 		}
 	}
@@ -779,7 +895,7 @@ func GenC06(rng *rand.Rand, thorough bool, emit func(*Sx)) {
 			}
 		}
 		// ---- consecutive transactions: each message is measured on its own ----
-		for _, via := range []string{"bdat-bdat", "bdat-data", "data-bdat", "rset-bdat"} {
+		for _, via := range []string{"bdat-bdat", "bdat-data", "data-bdat", "rset-bdat", "data-dataover", "dataover-dataover", "data-data-dataover", "bdat-dataover", "dataover-data"} {
 			for _, lmtp := range []bool{false, true} {
 				cfg := DefaultCfg()
 				cfg.MaxBytes = int64(N)
@@ -807,7 +923,40 @@ func GenC06(rng *rand.Rand, thorough bool, emit func(*Sx)) {
 					f.cut()
 					f.raw(strings.Repeat("t", N))
 				}
+				// a DATA message of N+3 octets: refused with 552 after exactly N octets were handed over,
+				// however many messages the connection has already carried
+				over := func() {
+					f.cmd("MAIL FROM:<s@ok>", 250)
+					f.cmd("RCPT TO:<r@ok>", 250)
+					f.cmd("DATA", 354)
+					body := strings.Repeat("o", N+1) + "\r\n"
+					f.raw(body + ".\r\n")
+					f.expect(552)
+				}
+				if strings.HasSuffix(via, "over") && N >= 2 {
+					f.add(L(A("expect-last-data"), XS(strings.Repeat("o", N)), A("toolarge")))
+				}
+				if strings.Contains(via, "over") && N < 2 {
+					continue
+				}
 				switch via {
+				case "data-dataover":
+					msg("data", true)
+					over()
+				case "dataover-dataover":
+					over()
+					over()
+				case "data-data-dataover":
+					msg("data", true)
+					msg("data", true)
+					over()
+				case "bdat-dataover":
+					msg("bdat", true)
+					over()
+				case "dataover-data":
+					over()
+					msg("data", true)
+					f.add(L(A("expect-last-data"), XS(strings.Repeat("d", N-2)+"\r\n"), A("eof")))
 				case "bdat-bdat":
 					msg("bdat", true)
 					msg("bdat", true)
@@ -921,6 +1070,32 @@ func GenC07(rng *rand.Rand, thorough bool, emit func(*Sx)) {
 					}
 				}
 			}
+			// --- a LAST chunk whose declared size is huge; the connection is lost after a few octets ---
+			for hi, huge := range []string{"2147483648", "4294967295", "4294967296", "9223372036854775807", "9223372036854775808", "18446744073709551615", "18446744073709551616"} {
+				for _, first := range []bool{false, true} {
+					for ti, term := range terms {
+						if !thorough && (hi+ti)%2 != 0 && first {
+							continue
+						}
+						f := newF(cfg)
+						f.hello()
+						f.cmd("MAIL FROM:<s@ok>", 250)
+						f.cmd("RCPT TO:<r0@ok>", 250)
+						n250 := int64(3)
+						if first {
+							f.cmd("BDAT 5", 250)
+							f.raw("first")
+							n250 = 4
+						}
+						f.known = false
+						f.cmd("BDAT " + huge + " LAST")
+						f.raw("only a few octets\r\n")
+						f.add(L(A("forbid-eof")))
+						f.add(L(A("max-250"), Num(n250)))
+						emit(RunConv(f.caseOf("C07", segStream(rng, f.out, nil, hi%3, term))))
+					}
+				}
+			}
 			// --- the client abandons a chunked transfer ---
 			for _, ab := range []string{"RSET", "QUIT", "EHLO again", "LHLO again", "NOOP", ""} {
 				f := newF(cfg)
@@ -974,7 +1149,53 @@ func GenC08(rng *rand.Rand, thorough bool, emit func(*Sx)) {
 			f.raw("abc")
 		},
 	}
+	convs = append(convs, func(f *fconv) {
+		f.hello()
+		f.cmd("AUTH PLAIN")
+		f.cmd("AGEAYg==")
+		f.cmd("MAIL FROM:<s@ok>")
+		f.cmd("RCPT TO:<r@ok>")
+		f.cmd("QUIT")
+	}, func(f *fconv) {
+		f.hello()
+		f.cmd("AUTH PLAIN")
+		f.cmd("*")
+		f.cmd("AUTH PLAIN")
+		f.cmd("AGEAYg==")
+		f.cmd("NOOP")
+	})
 	terms := []Raw{{Kind: RawEOF}, {Kind: RawTimeout}, {Kind: RawErr}}
+	// one read fails (time-out or error) at a line boundary and the peer then goes on: whatever the
+	// server does about the failure, nothing may run after a reply with which it gave up the connection
+	for _, mk := range convs {
+		for _, lmtp := range []bool{false, true} {
+			cfg := DefaultCfg()
+			cfg.LMTP = lmtp
+			cfg.Insecure, cfg.HasAuth, cfg.Auth = true, true, []string{"PLAIN"}
+			f := newF(cfg)
+			mk(f)
+			for k := 1; k < len(f.out); k++ {
+				if f.out[k-1] != '\n' {
+					continue
+				}
+				for ti, fault := range []Raw{{Kind: RawTimeout}, {Kind: RawErr}} {
+					for _, twice := range []bool{false, true} {
+						if !thorough && twice && (k+ti)%2 != 0 {
+							continue
+						}
+						g := newF(cfg)
+						g.known = false
+						raws := segStream(rng, f.out[:k], nil, (k+ti)%3, fault)
+						if twice {
+							raws = append(raws, fault)
+						}
+						raws = append(raws, segStream(rng, f.out[k:], nil, (k+ti)%2, rawEOF)...)
+						emit(RunConv(g.caseOf("C08", raws)))
+					}
+				}
+			}
+		}
+	}
 	for ci, mk := range convs {
 		for _, lmtp := range []bool{false, true} {
 			cfg := DefaultCfg()
